@@ -183,3 +183,109 @@ Print Assumptions C06_src_list_like_handlers.
 Print Assumptions C06_src_wrapper_handler.
 Print Assumptions C06_src_fields_map_handler.
 Print Assumptions C06_error_class_refuted.
+
+(* ---- the tie to the source of the deserialization dispatch, re-checked by the kernel on every run ------------
+   Gen/DeserializeSrc.v is re-generated from typedpy/serialization/serialization.py (harness/genmods/py2v_deserialize.py):
+   deserialize_single_field, deserialize_list_like, deserialize_map, deserialize_multifield_wrapper,
+   construct_fields_map, the extra-key filter and deserialize_structure_internal (calls to code outside the file go
+   through one oracle, instantiated by the hand model's meaning).  For every declaration and document in the
+   stated domain (doc_ok: no sets, hashable distinct dict keys; order_ok: Map entries on which key-first and
+   value-first evaluation agree) the source computes NOW what the hand-written model Ser/Deserialize.v computes. *)
+From TP Require Import Base.PyObj Base.PyOpsDeserialize Gen.DeserializeSrc Ser.DeserializeSrcProofs.
+
+Theorem C06_src_single_field :
+  forall (re_match : N -> pystr -> bool) (e : env) (ens : enums) (h : heap) 
+           (ext : extern) (rec : bool -> pystr -> pyval -> res pyval),
+         (forall (ku : bool) (c : pystr) (j v : pyval), rec ku c j = Ok v -> is_unbound v = false) ->
+         ext_agrees re_match e ens ext ->
+         forall (f : field) (fuel : nat) (ku ign : bool) (j name mapper camel : pyval),
+         3 * fdepth f <= fuel ->
+         doc_ok j = true ->
+         order_ok re_match e ens rec ku f j = true ->
+         r_deserialize_single_field (F h ext rec fuel) (fld_py f) j name mapper 
+           (PBool ku) camel (PBool ign) = deser_val re_match e ens rec ku ign f j.
+Proof. exact src_single_field_eq. Qed.
+
+(* premise-free instance: the oracle IS the model *)
+Theorem C06_src_single_field_model :
+  forall (re_match : N -> pystr -> bool) (e : env) (ens : enums) (h : heap)
+           (rec : bool -> pystr -> pyval -> res pyval) (f : field) (fuel : nat) 
+           (ku ign : bool) (j name mapper camel : pyval),
+         (forall (ku0 : bool) (c : pystr) (j0 v : pyval), rec ku0 c j0 = Ok v -> is_unbound v = false) ->
+         3 * fdepth f <= fuel ->
+         doc_ok j = true ->
+         order_ok re_match e ens rec ku f j = true ->
+         r_deserialize_single_field (F h (model_ext re_match e ens) rec fuel) 
+           (fld_py f) j name mapper (PBool ku) camel (PBool ign) =
+         deser_val re_match e ens rec ku ign f j.
+Proof. exact src_single_field_model. Qed.
+
+Theorem C06_src_construct_fields_map :
+  forall (re_match : N -> pystr -> bool) (e : env) (ens : enums) (h : heap) 
+           (ext : extern) (rec : bool -> pystr -> pyval -> res pyval),
+         (forall (ku : bool) (c : pystr) (j v : pyval), rec ku c j = Ok v -> is_unbound v = false) ->
+         ext_agrees re_match e ens ext ->
+         ext_struct_agrees ext ->
+         forall (cn : pystr) (fds : list fdecl) (m kv : list (pyval * pyval)) 
+           (ku ign : bool) (usm camel : pyval) (fuel : nat),
+         cfm_heap_ok h cn = true ->
+         noop_on m fds = true ->
+         NoDup (map fd_name fds) ->
+         fields_covered re_match e ens rec ku fds kv = true ->
+         3 * fields_depth fds <= fuel ->
+         src_construct_fields_map h ext (F h ext rec fuel) (PDict (enc_fields fds)) 
+           (PBool ku) (PDict m) (PDict kv) (ref cn) usm camel (PBool ign) 
+           (PBool false) =
+         match deser_fields re_match e ens rec ku ign fds kv false with
+         | Ok kw => Ok (PDict (enc_kw kw))
+         | Raise x => Raise x
+         end.
+Proof. exact src_construct_fields_map_eq. Qed.
+
+(* which non-field keys reach the constructor *)
+Theorem C06_src_extra_keys :
+  forall (h : heap) (ext : extern) (R : recs) (cn : pystr) (c : classdef)
+           (kv : list (pyval * pyval)) (ku flag : bool),
+         h (s2p "TypedPyDefaults") (s2p "ignore_invalid_additional_properties_in_deserialization") =
+         Some (PBool flag) ->
+         match h cn (s2p "_constants") with
+         | Some (PList []) | Some (PDict []) | None => true
+         | _ => false
+         end = true ->
+         forallb (fun p : pyval * pyval => py_hashable (fst p)) kv = true ->
+         keys_distinct [] kv = true ->
+         r <-
+         src_deserialize_structure_internal_comp_kwargs h ext R (PBool ku)
+           (PDict (enc_fields (c_fields c))) (PBool (c_additional c)) (ref cn) kv;;
+         PyOpsFields.py_dict_of r =
+         Ok
+           (PDict
+              (if ku && (c_additional c || negb flag)
+               then filter (fun p : pyval * pyval => negb (is_field_key c (fst p))) kv
+               else [])).
+Proof. exact src_extra_keys_eq. Qed.
+
+(* one class level of deserialize_structure_internal = the model's deser_struct *)
+Theorem C06_src_structure_internal :
+  forall (re_match : N -> pystr -> bool) (e : env) (ens : enums) (fl : dflags) 
+           (h : heap) (ext : extern) (n fuel : nat) (cn : pystr) (c : classdef)
+           (m : list (pyval * pyval)) (j name usm mapper : pyval) (ku : bool) 
+           (ssv : pyval),
+         ext_agrees re_match e ens ext ->
+         ext_struct_agrees ext ->
+         find_class e cn = Some c ->
+         heap_models h fl cn c ->
+         ext_class_agrees re_match e ext cn c m ->
+         NoDup (map fd_name (c_fields c)) ->
+         struct_covered re_match e ens (deser_struct re_match e ens fl n) ku c j = true ->
+         3 * fields_depth (c_fields c) <= fuel ->
+         src_deserialize_structure_internal h ext
+           (struct_recs h ext (deser_struct re_match e ens fl n) fuel) (ref cn) j name usm mapper
+           (PBool ku) (PBool false) (PBool false) ssv = deser_struct re_match e ens fl (S n) ku cn j.
+Proof. exact src_structure_internal_eq. Qed.
+
+Print Assumptions C06_src_single_field.
+Print Assumptions C06_src_single_field_model.
+Print Assumptions C06_src_construct_fields_map.
+Print Assumptions C06_src_extra_keys.
+Print Assumptions C06_src_structure_internal.
